@@ -70,15 +70,38 @@ def handleL3 (req ans : String) : Verdict :=
       -- the driver reports a model disagreement iff `model != ans`: give back `ans` itself when the
       -- comparison rule accepts it
       { model := if ok then ans else m, specOk := true, spec := "-", nontrivial := ans.startsWith "OK" && src.length > 10 }
-  | ["asm2", e1, e2] =>
+  | ["asm2", e1, e2, expV] =>
     match pctDecode e1, pctDecode e2, ans.splitOn " || " with
     | some s1, some s2, [a1, a2] =>
+      -- independent reader: the numeric constants of the emitted code lines (mod 256, zeros dropped,
+      -- sorted) must be the constants of the source (given by the generator from its syntax tree)
+      let constsOf := fun (a : String) =>
+        let c := ((a.splitOn " | ").find? (·.startsWith "c=")).getD "c=-"
+        let lines := if c == "c=-" then [] else ((c.drop 2).toString.splitOn ";").filterMap pctDecode
+        let nums := lines.flatMap fun l =>
+          let cs := l.toList
+          let rec go : List Char → Option Char → List Int → Nat → List Int
+            | _, _, acc, 0 => acc
+            | [], _, acc, _ => acc
+            | c :: rest, prev, acc, fuel+1 =>
+              let prevAlnum := match prev with | some p => p.isAlphanum || p == '_' | none => false
+              if c.isDigit && !prevAlnum then
+                let ds := (c :: rest).takeWhile Char.isDigit
+                let v : Int := (String.ofList ds).toNat!
+                let v := if prev == some '-' then -v else v
+                go ((c :: rest).drop ds.length) ds.getLast? (v :: acc) fuel
+              else go rest (some c) acc fuel
+          go cs none [] (cs.length + 1)
+        let m := nums.map fun v => (v % 256).toNat
+        (m.filter (· != 0)).toArray.qsort (· < ·) |>.toList
+      let expected : List Nat := if expV == "-" then [] else (expV.splitOn ".").map String.toNat!
+      let constsOk := !(a1.startsWith "OK") || (constsOf a1 == expected)
       let (m1, ok1) := asmVerdict s1 a1
       let (m2, ok2) := asmVerdict s2 a2
       -- C11: the two renderings of the same program must emit identical code and data lists
       let lists := fun (a : String) => ((a.splitOn " | ").filter fun f => f.startsWith "c=" || f.startsWith "d=" || f.startsWith "f=")
       let errMsg := fun (a : String) => " ".intercalate ((a.splitOn " ").drop 3)
-      let same := (a1.startsWith "OK" && a2.startsWith "OK" && lists a1 == lists a2)
+      let same := (a1.startsWith "OK" && a2.startsWith "OK" && lists a1 == lists a2 && constsOk)
         || (a1.startsWith "ERR custom" && a2.startsWith "ERR custom" && errMsg a1 == errMsg a2)
       { model := if ok1 && ok2 then ans else s!"{m1} || {m2}", specOk := same,
         spec := "both renderings accepted with identical code/data lists (or both refused with the same diagnostic)", nontrivial := s1 != s2 }
